@@ -290,7 +290,7 @@ func init() {
 		ID:          "C20",
 		Level:       "exploration",
 		Technique:   "runtime oracle over generated positions with short histories: finiteness and colour-mirror symmetry of evaluations, move filters vs the independent legal-move set, book replies vs the legal-move set over the enumerated opening tree",
-		Rule:        "positions with histories (playouts from curated and synthetic starts, tactical shapes, sparse endings) x branch limits {1,3,7,0} x material factors {0,1,20,1000,-1}: evaluations finite; Material/TUROCHAMP/BERNSTEIN equal on the colour-mirrored game (a third of the games set up with moves tried and taken back on the way, castling first); plausible-move / no-under-promotion / considerable-move filters vs the oracle's legal set; books: every position of the game tree to depth 3 from the initial position (9323 positions) looked up in the SARGON, BERNSTEIN and generated line books; distinct = distinct (position, history length) + distinct book hits",
+		Rule:        "positions with histories (playouts from curated and synthetic starts, tactical shapes, sparse endings, boxed kings, one long-range piece on open lines ending in enemy men: the extremes of mobility and capture counts) x branch limits {1,3,7,0} x material factors {0,1,20,1000,-1}: evaluations finite; Material/TUROCHAMP/BERNSTEIN equal on the colour-mirrored game (a third of the games set up with moves tried and taken back on the way, castling first); plausible-move / no-under-promotion / considerable-move filters vs the oracle's legal set; books: every position of the game tree to depth 3 from the initial position (9323 positions) looked up in the SARGON, BERNSTEIN and generated line books; distinct = distinct (position, history length) + distinct book hits",
 		Assumptions: []string{"reference rules implementation (package ref)", "SARGON's evaluation is anchored to the root side by design: only totality is checked for it"},
 		Setup:       validateOracle,
 		Timeout:     minutes(10, 60),
@@ -301,7 +301,7 @@ func init() {
 			return l
 		},
 		Floors: func(string) map[string]int64 {
-			return map[string]int64{"positions": 2000, "mirror_checks": 8000, "plausible_checks": 8000, "book_lookups": 9000, "book_hits": 20, "considerable_selected": 500, "boxed_king_positions": 300, "castled_histories": 100, "takebacks_on_the_way": 300, "castle_takebacks": 10, "book_variant_lookups": 200}
+			return map[string]int64{"positions": 2000, "mirror_checks": 8000, "plausible_checks": 8000, "book_lookups": 9000, "book_hits": 20, "considerable_selected": 500, "boxed_king_positions": 300, "open_line_positions": 250, "castled_histories": 100, "takebacks_on_the_way": 300, "castle_takebacks": 10, "book_variant_lookups": 200}
 		},
 		Run: func(c *fw.Ctx, cs fw.Case) {
 			r := cs.Rand()
@@ -309,7 +309,14 @@ func init() {
 			case "positions":
 				for i := 0; i < cs.N; i++ {
 					var h gen.Hist
-					switch i % 6 {
+					switch i % 7 {
+					case 6:
+						if p, ok := gen.OpenLines(r); ok {
+							h = gen.Playout(r, p, r.Intn(2), gen.Neutral)
+							c.Count("open_line_positions", 1)
+						} else {
+							h = randomHist(r, 30)
+						}
 					case 5:
 						if p, ok := gen.BoxedKing(r); ok {
 							h = gen.Hist{Start: p}
